@@ -38,6 +38,20 @@ Theorem c04_skeleton_counter :
 Proof. vm_compute. reflexivity. Qed.
 Print Assumptions c04_skeleton_counter.
 
+(* giving up a reference is exactly the decrement, and the last decrement is what deletes: the call paths of the
+   intrusive reference count (Helper::IncRef/DecRef, AtomicCounter::Sub/SubEqual) are the ones RACounter models;
+   an extra fast path (e.g. a relaxed Get()==1 test that deletes without the RMW) changes these lists *)
+Theorem c04_skeleton_refcount_paths :
+  calls =
+  [("include/yaclib/util/helper.hpp", "IncRef", ["Add"]);
+   ("include/yaclib/util/helper.hpp", "DecRef", ["Sub"]);
+   ("include/yaclib/util/helper.hpp", "GetRef", ["Get"]);
+   (ac, "Add", ["fetch_add"]);
+   (ac, "Sub", ["SubEqual"; "Delete"]);
+   (ac, "SubEqual", ["fetch_sub"; "atomic_thread_fence"])].
+Proof. vm_compute. reflexivity. Qed.
+Print Assumptions c04_skeleton_refcount_paths.
+
 Theorem c04_skeleton_strand :
   skeleton ops sd =
   [("~Strand", "_jobs", "load"); ("Submit", "_jobs", "load"); ("Submit", "_jobs", "compare_exchange_weak");
